@@ -345,6 +345,15 @@ def apply_model(sym, n, f, vals, mut_idx, st):
         return out
     if last == "len" and len(vals) == 1 and vals[0][0] == "prefix":
         return V(vals[0][2])       # x[..k].len() is k
+    if last == "len" and len(vals) == 1 and vals[0][0] == "const" and vals[0][2]:
+        # the length of a byte-array / byte-string constant whose value the compiler printed
+        import ast as _ast
+        try:
+            lit_ = _ast.literal_eval(vals[0][2].lstrip("*&"))
+            if isinstance(lit_, (bytes, str)):
+                return V(lit_int(len(lit_) if isinstance(lit_, bytes) else len(lit_.encode("utf-8"))))
+        except Exception:
+            pass
 
     # ---- the last piece of a split, taken from either end ------------------------------------------------------------------------
     if p == "std::iter::Iterator::next" and len(vals) == 1 and vals[0][0] == "call" and vals[0][1] == "core::str::rsplit" and len(vals[0][2]) == 2:
